@@ -401,6 +401,31 @@ sexp sexp_utf8_prev (sexp ctx, sexp self, sexp bv, sexp offset, sexp start) {
   return i < limit ? SEXP_FALSE : sexp_make_fixnum(i);
 }
 
+/* fgets for a stream port, returning a string that keeps any NUL */
+/* characters of the line: at most n-1 bytes up to and including the */
+/* newline, or #f if nothing could be read */
+sexp sexp_read_line_stream (sexp ctx, sexp self, sexp sn, sexp in) {
+  sexp res;
+  sexp_sint_t n, i = 0;
+  int c = EOF;
+  char *buf;
+  sexp_assert_type(ctx, sexp_fixnump, SEXP_FIXNUM, sn);
+  sexp_assert_type(ctx, sexp_iportp, SEXP_IPORT, in);
+  n = sexp_unbox_fixnum(sn);
+  if (!sexp_port_stream(in) || n <= 1)
+    return SEXP_FALSE;
+  buf = (char*) malloc(n);
+  if (!buf)
+    return sexp_global(ctx, SEXP_G_OOM_ERROR);
+  while (i < n-1 && (c = getc(sexp_port_stream(in))) != EOF) {
+    buf[i++] = c;
+    if (c == '\n') break;
+  }
+  res = (i == 0) ? SEXP_FALSE : sexp_c_string(ctx, buf, i);
+  free(buf);
+  return res;
+}
+
 /* TODO: add optional encoding validation */
 sexp sexp_utf8_to_string_x (sexp ctx, sexp self, sexp vec, sexp offset, sexp size) {
   sexp_assert_type(ctx, sexp_bytesp, SEXP_BYTES, vec);
